@@ -37,6 +37,7 @@ def generate(tier, seed, work, stats):
         cases.append(dict(prods=prods, vpool="upper", tpool="ab", family="random"))
     for c in cases:
         c["L"] = L(tier)
+    cases += [c for c in core.record_tests(["/repo/pyformlang"], work, {"is_empty", "is_finite", "get_generating_symbols", "get_nullable_symbols", "get_reachable_symbols"}, stats) if "G" in c["recorded"][0]]
     return cases
 
 
